@@ -1333,6 +1333,10 @@ class PPrintModelEngine(Engine):
   One case = one seed of that generator.  Strings / bytes that pprint would split are left out (not modelled)."""
   name = 'pprint-model'
   model = False
+  script = 'pprint_corr.py'
+
+  def args(self, case):
+    return ['--seeds', str(case['seed']), '--n', str(case['n']), '--nbind', str(case['nbind'])]
 
   def budget(self, tier):
     return 0 if tier == 'quick' else 4
@@ -1348,18 +1352,39 @@ class PPrintModelEngine(Engine):
     import re as _re
     import subprocess
     env = dict(os.environ, PYTHONPATH=C.REPO + os.pathsep + C.VERIF)
-    p = subprocess.run([sys.executable, '-B', os.path.join(C.VERIF, 'harness', 'pprintm', 'pprint_corr.py'), '--seeds', str(case['seed']),
-                        '--n', str(case['n']), '--nbind', str(case['nbind']), '--coq', C.COQ], capture_output=True, text=True,
-                       timeout=1500, env=env)
+    env['GIN_REPO'] = C.REPO
+    p = subprocess.run([sys.executable, '-B', os.path.join(C.VERIF, 'harness', 'pprintm', self.script)] + self.args(case) + ['--coq', C.COQ],
+                       capture_output=True, text=True, timeout=1500, env=env)
     out = p.stdout + p.stderr
     fails = []
     if p.returncode != 0:
       bad = [l.strip() for l in out.split('\n') if 'DISAGREE ' in l and 'TOTAL' not in l and 'cases' not in l]
-      kind = 'format-binding-differs-from-model' if any('format_binding' in b for b in bad) else 'pformat-model-disagrees-with-cpython'
+      kind = ('config-text-differs-from-model' if self.script != 'pprint_corr.py' else
+              'format-binding-differs-from-model' if any('format_binding' in b for b in bad) else 'pformat-model-disagrees-with-cpython')
       fails.append((kind, '; '.join(bad[:4]) or out[-800:]))
     m = _re.findall(r'cases (\d+)', out)
     n = sum(int(x) for x in m)
     return {'obs': T('PPrint', n), 'fails': fails, 'nontrivial': n > 100, 'tags': ['pprint-cases:%d' % n]}
 
 
-ENGINES = [SerialEngine(), ValueTextEngine(), DynStrEngine(), CornerEngine(), AtomModelEngine(), PPrintModelEngine()]
+class ConfigTextEngine(PPrintModelEngine):
+  """coq/Model/ConfigText.v (`config_text`: the whole text of config_str() computed from the store, values through the
+  pformat model) against gin.config_str() of /repo's current source, CHARACTER FOR CHARACTER, on generated stores
+  (functions in modules, classes with registered methods, scopes, macros incl. the root-scope gin.macro binding, opaque
+  values, every line width); this is the tie of Props/ConfigText.v (`ConfigText_reads_back`, `ConfigText_roundtrip`: the
+  characters are lexed and parsed back into exactly the emitted bindings, and re-serialise to the same text) to the code.
+  One case = one seed of harness/pprintm/config_text_corr.py."""
+  name = 'config-text'
+  script = 'config_text_corr.py'
+
+  def corpus(self):
+    return [{'seed': 0, 'n': 120}]
+
+  def gen(self, rng, tier):
+    return {'seed': rng.randrange(1, 10 ** 6), 'n': 400}
+
+  def args(self, case):
+    return ['--seeds', str(case['seed']), '--n', str(case['n'])]
+
+
+ENGINES = [SerialEngine(), ValueTextEngine(), DynStrEngine(), CornerEngine(), AtomModelEngine(), PPrintModelEngine(), ConfigTextEngine()]
